@@ -84,7 +84,7 @@ func VerifC13RotateFaults() {
 	const maxOps = 6
 	f := &vfFaulty{inner: inner, failAt: vf.Int("fail-at", -1, maxOps), kind: vf.Int("error-kind", 0, 2)}
 	out, err := RotateRootCertificates(ctx, f, nodeenrollment.WithReinitializeRoots(vf.Bool("reinitialize")))
-	vf.Assert("op-count-within-bound", f.n <= maxOps) // unwinding check for the fault position range
+	vf.Bound("op-count-within-bound", f.n <= maxOps) // unwinding check for the fault position range
 	if f.hit {
 		vf.Reach("fault-hit")
 	}
@@ -135,7 +135,7 @@ func VerifC13NodeRotationFaults() {
 	const maxOps = 10
 	f := &vfs.Faulty{Inner: inner, FailAt: vf.Int("fail-at", -1, maxOps), ErrKind: vf.Int("error-kind", 0, 2)}
 	resp, err := RotateNodeCredentials(ctx, f, &types.RotateNodeCredentialsRequest{CertificatePublicKeyPkix: vf.Pkix(2), EncryptedFetchNodeCredentialsRequest: payload})
-	vf.Assert("op-count-within-bound", f.N <= maxOps)
+	vf.Bound("op-count-within-bound", f.N <= maxOps)
 	if f.Hit {
 		vf.Reach("fault-hit")
 	}
